@@ -12,6 +12,7 @@ import (
 	"os"
 	"path/filepath"
 	"reflect"
+	"slices"
 	"sort"
 	"strings"
 	"time"
@@ -54,7 +55,7 @@ func blockingVariant(i int) dnsmsg.BlockingMode {
 	}
 }
 
-const nAccess = 6
+const nAccess = 9
 
 func accessVariant(i int) access.Profile {
 	switch i % nAccess {
@@ -82,9 +83,108 @@ func accessVariant(i int) access.Profile {
 			BlockedASN:           []geoip.ASN{4},
 			BlocklistDomainRules: []string{"*.wild.test"},
 		})
-	default:
+	case 5:
 		return access.NewDefaultProfile(&access.ProfileConfig{})
+	case 6:
+		// differs from 1 in the subnets only
+		return access.NewDefaultProfile(&access.ProfileConfig{
+			AllowedNets: []netip.Prefix{pfx("203.0.5.0/24")},
+			BlockedNets: []netip.Prefix{pfx("198.51.100.0/24"), pfx("2001:db8:b::/48")},
+		})
+	case 7:
+		// differs from 2 in the ASNs only
+		return access.NewDefaultProfile(&access.ProfileConfig{
+			AllowedASN: []geoip.ASN{64501},
+			BlockedASN: []geoip.ASN{64500, 64502},
+		})
+	default:
+		// differs from 3 in the name rules only
+		return access.NewDefaultProfile(&access.ProfileConfig{
+			BlocklistDomainRules: []string{"block.test", "||other.blocked.example^"},
+		})
 	}
+}
+
+// accessChangeClass names what differs between two access variants.
+func accessChangeClass(a, b int) string {
+	ca, cb := accessVariant(a).Config(), accessVariant(b).Config()
+	if ca == nil {
+		ca = &access.ProfileConfig{}
+	}
+	if cb == nil {
+		cb = &access.ProfileConfig{}
+	}
+	nets := !slices.Equal(ca.AllowedNets, cb.AllowedNets) || !slices.Equal(ca.BlockedNets, cb.BlockedNets)
+	asns := !slices.Equal(ca.AllowedASN, cb.AllowedASN) || !slices.Equal(ca.BlockedASN, cb.BlockedASN)
+	names := !slices.Equal(ca.BlocklistDomainRules, cb.BlocklistDomainRules)
+	switch {
+	case nets && !asns && !names:
+		return "subnets-only"
+	case asns && !nets && !names:
+		return "asns-only"
+	case names && !nets && !asns:
+		return "names-only"
+	case !nets && !asns && !names:
+		return "none"
+	default:
+		return "mixed"
+	}
+}
+
+// accessIdxOf is the access variant of the current version of a world profile.
+func accessIdxOf(p *wProf) int {
+	if p.AccessSel >= 0 {
+		return p.AccessSel % nAccess
+	}
+	return int(hash32("p", p.ID, p.Ver)>>5) % nAccess
+}
+
+// expectedAccess holds, per variant, the configuration and the answers of the
+// probes of a freshly built access manager.
+type expectedAccessT struct {
+	cfg    *access.ProfileConfig
+	probes []bool
+}
+
+var expectedAccess = func() (out []expectedAccessT) {
+	for i := 0; i < nAccess; i++ {
+		a := accessVariant(i)
+		e := expectedAccessT{cfg: a.Config()}
+		for _, pr := range accessProbes {
+			e.probes = append(e.probes, probeAccess(a, pr))
+		}
+		out = append(out, e)
+	}
+	return out
+}()
+
+func probeAccess(a access.Profile, pr accessProbe) bool {
+	var loc *geoip.Location
+	if pr.asn != 0 {
+		loc = &geoip.Location{ASN: pr.asn}
+	}
+	return a.IsBlocked(probeReq(pr.host), netip.MustParseAddrPort(pr.addr), loc)
+}
+
+// accessMismatch compares the access manager of a looked-up profile with the
+// settings of the variant that was synchronised for this profile version.
+func accessMismatch(got access.Profile, idx int, withProbes bool) (what string) {
+	exp := expectedAccess[idx]
+	c := &cmpCtx{opaque: map[string]bool{}}
+	c.compareValues("Profile.Access.Config()", reflect.ValueOf(exp.cfg), reflect.ValueOf(got.Config()))
+	if len(c.diffs) > 0 {
+		d := c.diffs[0]
+		return fmt.Sprintf("%s: synchronised %s, looked-up profile has %s", d.Path, d.A, d.B)
+	}
+	if !withProbes {
+		return ""
+	}
+	for i, pr := range accessProbes {
+		if g := probeAccess(got, pr); g != exp.probes[i] {
+			return fmt.Sprintf("IsBlocked(%s: %s from %s asn %d) = %v, the synchronised settings give %v", pr.name, pr.host, pr.addr, pr.asn, g, exp.probes[i])
+		}
+	}
+	return ""
 }
 
 const nRatelimit = 4
@@ -302,7 +402,7 @@ func mkProfile(p *wProf) *agd.Profile {
 	return buildProfile(profSpec{
 		ID: p.ID, DeviceIDs: append([]agd.DeviceID(nil), p.Devs...),
 		TTL:      time.Duration(p.Ver) * time.Second,
-		Blocking: int(h >> 3), Access: int(h >> 5), Ratelimit: int(h >> 7), Schedule: int(h >> 9),
+		Blocking: int(h >> 3), Access: accessIdxOf(p), Ratelimit: int(h >> 7), Schedule: int(h >> 9),
 		Custom: int(h >> 11), Services: int(h >> 13), RuleLists: int(h >> 15), Bits: bits,
 	})
 }
@@ -511,12 +611,14 @@ func probeReq(name string) *dns.Msg {
 	return m
 }
 
-var accessProbes = []struct {
+type accessProbe struct {
 	name string
 	host string
 	addr string
 	asn  geoip.ASN
-}{
+}
+
+var accessProbes = []accessProbe{
 	{"plain", "example.org", "198.51.100.1:5353", 0},
 	{"blocked-net", "example.org", "203.0.5.5:1", 0},
 	{"allowed-net-in-blocked", "example.org", "203.0.113.9:1", 0},
@@ -531,6 +633,10 @@ var accessProbes = []struct {
 	{"net-192", "example.org", "192.0.2.5:1", 0},
 	{"net-192-allowed", "example.org", "192.0.2.200:1", 0},
 	{"allowed-v6", "example.org", "[2001:db8:a::1]:1", 0},
+	{"asn-64500", "example.org", "192.0.2.1:1", 64500},
+	{"asn-64502", "example.org", "192.0.2.1:1", 64502},
+	{"net-203-0-5-plain", "example.org", "203.0.5.77:1", 0},
+	{"rule-other", "x.other.blocked.example", "198.51.100.1:1", 0},
 }
 
 func behaviour(p *agd.Profile, d *agd.Device) (out map[string]string) {
@@ -656,7 +762,7 @@ func fieldFidelity(r *vkit.Run, dir string) {
 			ps := profSpec{
 				ID:       agd.ProfileID(fmt.Sprintf("q%d", n)),
 				TTL:      ttlVariant(n),
-				Blocking: n, Access: n / 2, Ratelimit: n / 3, Schedule: n + n/5, Custom: n + n/4,
+				Blocking: n, Access: n, Ratelimit: n / 3, Schedule: n + n/5, Custom: n + n/4,
 				Services: n, RuleLists: n / 2,
 				Bits: uint32(1)<<(uint(n)%16) | rng.Uint32()&0xffff,
 			}
